@@ -43,6 +43,16 @@ Explicit-state search on the real `nemoguardrails.streaming.StreamingHandler`.
   binding     a deterministic subset of DAG paths, and every path shown in a reported violation, is
               replayed from scratch (fresh handler, real asyncio loop, real `async for` consumer) and
               must give the same observation as the snapshot/restore search (else: harness error).
+  single-call the streaming path of `rails.dialog.single_call` (actions/llm/generation.py: a private handler in
+              buffering mode, `wait_top_k_nonempty_lines`, then pattern / pipe / stop installed and the buffer
+              flushed) is covered by three more families, run first (run_single_call_families):
+                mode "handover" / "handover:sep" (c18_handover.py): the same explicit-state search over all
+                  chunkings of  head (two intent lines) + body,  the hand-over performed with the operations
+                  RECORDED from a real LLMRails request; signatures `handover:...`
+                R1 (c18_rails.py): single streaming requests through a real LLMRails, every split of realistic
+                  LLM texts into <= 3 tokens; signatures `rails:...`
+                R2 (c18_rails.py): two overlapping streaming requests on one LLMRails, every interleaving of
+                  arrivals and token deliveries on the virtual loop; signatures `overlap:...`
 """
 from __future__ import annotations
 
@@ -65,6 +75,8 @@ ENDS = {
     "langchain": ("llm_end", "empty_token+llm_end"),
     "pipe": ("llm_end", "empty_token+llm_end"),
     "tokenonly": ("llm_end", "empty_token+llm_end"),
+    # hand-over modes (c18_handover.py): after the end of the LLM output the caller's handler is closed with push_chunk(None)
+    "handover": ("llm_end", "empty_token+llm_end"),
 }
 
 # realistic shapes (every non-empty character-prefix of each of them is checked as a text of its own)
@@ -489,6 +501,17 @@ class Rig:
             return (snap, delivered, ended, late, mon, self._snap(self.outer))
         return (snap, delivered, ended, late, mon)
 
+    def _site(self, psnap, is_end):
+        """which part of the handler the call went through (from the state before the call)"""
+        f = self.field
+        if is_end:
+            return "end-with-prefix-pending" if f(psnap, "prefix") else ("end-flush" if f(psnap, "current_chunk") else "end")
+        if f(psnap, "prefix"):
+            return "prefix-branch"
+        if f(psnap, "suffix") or self.cfg[2]:
+            return "pattern-branch"
+        return "plain-branch"
+
     def _monitor(self, pre, snap, delivered, chunk, is_end, mon):
         """Explanatory only (never decides a violation): names the call after which
           [0] completion first differed from the delivered text, and
@@ -498,14 +521,7 @@ class Rig:
         f = self.field
         psnap = pre[S_SNAP]
         suffix, stop = self.cfg[1], self.cfg[2]
-        if is_end:
-            site = "end-with-prefix-pending" if f(psnap, "prefix") else ("end-flush" if f(psnap, "current_chunk") else "end")
-        elif f(psnap, "prefix"):
-            site = "prefix-branch"
-        elif f(psnap, "suffix") or stop:
-            site = "pattern-branch"
-        else:
-            site = "plain-branch"
+        site = self._site(psnap, is_end)
         if l1 is None:
             comp = f(snap, "completion")
             if comp != delivered:
@@ -685,7 +701,7 @@ def run_real(cfg, mode, chunks, end):
 
 def outcome_of_real(r, mode):
     o = (r["delivered"], r["completion"], r["ended"], r["late"])
-    if mode == "pipe":
+    if mode == "pipe" or mode.startswith("handover"):
         o = o + (r["outer_completion"],)
     return o
 
@@ -741,10 +757,24 @@ def _explain(got, text, cfg, rd):
 
 # ------------------------------------------------------------------ explore one sub-trie
 def explore(task):
-    cfg, mode, lead, root, nmax, own_from, val_mod = task
-    rig = Rig(cfg, mode)
-    syms = alphabet(cfg)
-    ends = ENDS[mode]
+    cfg, mode, lead, root, nmax, own_from, val_mod = task[:7]
+    # hand-over modes (see c18_handover.py): the text starts with `head` (the two intent lines of the single-call
+    # format); what the statement calls the LLM output text is view(text) = the text behind those lines
+    head = task[7] if len(task) > 7 else ""
+    handover = mode.startswith("handover")
+    if handover:
+        from vf.props import c18_handover as ho
+
+        rig = ho.HandoverRig(cfg, mode)
+        syms = ho.alphabet(mode)
+        view = ho.body_of
+    else:
+        rig = Rig(cfg, mode)
+        syms = alphabet(cfg)
+
+        def view(t):
+            return t
+    ends = ENDS[mode.split(":")[0]]
     shape = cfg_shape(cfg)
     counts = {
         "states": 0, "transitions": 0, "terminals": 0, "texts": 0, "groups": 0,
@@ -757,6 +787,9 @@ def explore(task):
         "prefix_absent_groups_judged_against_reference": 0,
         "stoplist_texts": 0, "stoplist_texts_with_two_different_stops": 0,
     }
+    if handover:
+        counts.update({"handover_texts": 0, "handover_texts_before_the_handover": 0, "handover_groups_judged": 0,
+                       "handover_texts_with_stop_in_body": 0, "handover_traces_validated_through_llmrails": 0})
     sl = is_stoplist(cfg)
     viol = {}      # signature -> [size, what, replay, n]
     samples = []
@@ -777,8 +810,33 @@ def explore(task):
             j, state = i, prev
         return list(stack[0][state]) + chunks[::-1]
 
-    def confirm(chunks, end, outcome):
-        r = run_real(cfg, mode, chunks, end)
+    def confirm(chunks, end, outcome, force=False):
+        if handover:
+            r = ho.run_real(cfg, mode, chunks, end)
+            if "".join(chunks).startswith(ho.RAILS_HEAD) and end == "llm_end" and (
+                    force or zlib.crc32(repr(chunks).encode()) % 4 == 0):
+                # the same tokens through a real LLMRails request (binds the recorded protocol to generation.py)
+                try:
+                    ho.confirm_through_llmrails(cfg, chunks, r)
+                except ho.Disagree as d:
+                    # the model is wrong about the library.  If what the REAL request delivered is off the statement,
+                    # that is a finding whatever the model says; else the model is simply not bound: harness error
+                    text_ = "".join(chunks)
+                    rd_ = readings(view(text_), cfg)
+                    if d.outcome == "done" and d.obs[0] == "ok" and d.obs[1] in rd_ and d.obs[2] == d.obs[1]:
+                        raise RuntimeError(str(d))
+                    near = sorted(rd_, key=lambda x: (abs(len(x) - len(d.obs[1])), x))[0]
+                    record(f"llmrails-replay:{d.outcome}/{d.obs[0]}:{_diff(d.obs[1], near, cfg)}", len(text_), lambda: (
+                        f"single-call streaming through LLMRails, LLM text {text_!r} as tokens {chunks!r}: {d.outcome}/{d.obs[0]}, the "
+                        f"caller's handler delivered {d.obs[1]!r} (completion {d.obs[2]!r}); no reading of the statement gives that "
+                        f"(readings of the text behind the intent lines: {sorted(rd_)!r}); the handler-level replay of the recorded "
+                        f"protocol delivers {r['delivered']!r}",
+                        {"level": "rails", "family": "single-request", "text": text_, "chunkings": [list(chunks)],
+                         "delivered": [d.obs[1]], "expect": f"one of {sorted(rd_)!r}", "config": cfg_name(cfg)}, []))
+                    return
+                counts["handover_traces_validated_through_llmrails"] += 1
+        else:
+            r = run_real(cfg, mode, chunks, end)
         if outcome_of_real(r, mode) != outcome:
             raise RuntimeError(
                 f"HARNESS: snapshot/restore search and from-scratch replay disagree for {cfg_name(cfg)} "
@@ -790,15 +848,17 @@ def explore(task):
 
     def record(sig, size, make):
         """keep the smallest / plainest case of each class; `make` builds (what, replay, [(chunks, end, outcome)..])"""
+        if handover:
+            sig = "handover:" + sig
         cur = viol.get(sig)
         if cur is None:
             cur = viol[sig] = [(1 << 30,), None, None, 0]
         cur[3] += 1
-        size = (size, n_parts, MODES.index(mode), len(cfg[0] or ""))
+        size = (size, n_parts, MODES.index(mode) if mode in MODES else len(MODES), len(cfg[0] or ""))
         if size < cur[0]:
             what, rp, traces = make()
             for chunks, end, outcome in traces:
-                confirm(chunks, end, outcome)
+                confirm(chunks, end, outcome, True)
             cur[0], cur[1], cur[2] = size, what, rp
 
     def raised(e, chunks, end, text):
@@ -857,14 +917,25 @@ def explore(task):
         counts["chunkings_represented"] += (1 << max(0, j - 1)) * len(stack[0])
         if j > counts["max_text_len"]:
             counts["max_text_len"] = j
-        rd = readings(text, cfg)
-        if cfg[0] and not text.startswith(cfg[0]):
+        if handover:
+            counts["handover_texts"] += 1
+            if view(text) is None:
+                # fewer than k+1 non-empty lines: the hand-over never happens (nothing is streamed; whether the
+                # request then ever ends is a liveness question, not C18)
+                counts["handover_texts_before_the_handover"] += 1
+                if any(rig.handed(s) for s in stack[j]):
+                    raise RuntimeError(f"HARNESS: hand-over although the text {text!r} has no line k+1")
+                return
+            if any(st in view(text) for st in cfg[2]):
+                counts["handover_texts_with_stop_in_body"] += 1
+        rd = readings(view(text), cfg)
+        if cfg[0] and not view(text).startswith(cfg[0]):
             counts["texts_prefix_absent"] += 1
         if len(rd) == 1:
             counts["texts_with_unique_reading"] += 1
         else:
             counts["texts_ambiguous_reading"] += 1
-        if text not in rd:
+        if view(text) not in rd:
             counts["texts_where_pattern_logic_acted"] += 1
         if sl:
             counts["stoplist_texts"] += 1
@@ -899,13 +970,15 @@ def explore(task):
                     fine_ = witness(j, lst[-1][0], which=1)
                     if fine_ != coarse:
                         confirm(fine_, end, o)
-                    if len(samples) < 2 and j >= 4 and len(fine_) >= 3 and text not in rd:
+                    if len(samples) < 2 and j >= 4 and len(fine_) >= 3 and view(text) not in rd:
                         samples.append({"config": cfg_name(cfg), "mode": mode, "end": end, "text": text,
                                         "two_of_its_chunkings": [coarse, fine_], "delivered": o[0],
                                         "completion": o[1], "consumer_saw_end_sentinel": o[2],
                                         "outcomes_of_this_text": len(outcomes),
                                         "distinct_states_per_offset": [len(fr) for fr in stack]})
             if outcomes:
+                if handover:
+                    counts["handover_groups_judged"] += 1
                 judge(text, j, end, outcomes, rd)
 
     def judge(text, j, end, outcomes, rd):
@@ -956,19 +1029,19 @@ def explore(task):
                         record(f"chunking:{why}", size, make)
         else:
             d = next(iter(by_deliv))
-            absent = bool(cfg[0]) and not text.startswith(cfg[0])
+            absent = bool(cfg[0]) and not view(text).startswith(cfg[0])
             if absent:
                 counts["prefix_absent_groups_judged_against_reference"] += 1
             if d not in rd:
                 bad_group = True
-                kind = _explain(d, text, cfg, rd)
+                kind = _explain(d, view(text), cfg, rd)
                 if absent:
                     # the text never showed the configured prefix: the class is named by how the stream ended
                     counts["prefix_absent_groups_off_reference"] += 1
                     if end in ("push_empty", "push_none"):
                         where = "push-end"
                     else:
-                        where = "llm_end:" + ("stop-in-text" if any(st in text for st in cfg[2]) else "no-stop-in-text")
+                        where = "llm_end:" + ("stop-in-text" if any(st in view(text) for st in cfg[2]) else "no-stop-in-text")
                 seen = set()
                 for o1, lst in by_deliv[d]:
                     for s1, lab in lst:
@@ -993,7 +1066,7 @@ def explore(task):
                         record(f"reference:{where_}:{kind}:{why}", size, make)
         # completion == delivered, for every terminal state
         for which, idx in (("completion", 1), ("completion-of-receiving-handler", 4)):
-            if idx == 4 and mode != "pipe":
+            if idx == 4 and mode != "pipe" and not handover:
                 continue
             for o, lst in outcomes.items():
                 if o[idx] == o[0]:
@@ -1039,7 +1112,10 @@ def explore(task):
         # belongs to the task without root symbols
         for n, ch in enumerate(lead):
             if n + 1 < len(lead):
-                own = (not root) and any(c not in alpha_chars for c in lead[: n + 1])
+                if lead == head:
+                    own = not root      # the character-prefixes of the head belong to the family of free bodies
+                else:
+                    own = (not root) and any(c not in alpha_chars for c in lead[len(head): n + 1])
             else:
                 own = not root
             push_char(ch, own)
@@ -1049,7 +1125,7 @@ def explore(task):
                 return
             for y in syms:
                 mark = len(textbox[0])
-                if not lead and prefix and textbox[0] + y == prefix:
+                if lead == head and prefix and textbox[0][len(head):] + y == prefix:
                     continue  # prefix + anything is the other family
                 for ch in y:
                     push_char(ch, True)
@@ -1058,7 +1134,7 @@ def explore(task):
 
         pruned = False
         for k, y in enumerate(root):
-            if not lead and prefix and textbox[0] + y == prefix:
+            if lead == head and prefix and textbox[0][len(head):] + y == prefix:
                 pruned = True
                 break
             for ch in y:
@@ -1098,10 +1174,163 @@ def tasks(tier):
     return out
 
 
+def new_family_task(task):
+    """dispatcher of the one worker pool: the sub-tries of the handler families ("old"), the hand-over sub-tries and
+    the LLMRails-level families around the single-call streaming path (c18_handover.py, c18_rails.py)"""
+    kind = task[0]
+    if kind in ("old", "handover"):
+        return kind, explore(task[1])
+    from vf.props import c18_rails as R
+
+    if kind == "r1":
+        return kind, R.r1_task(task[1])
+    if kind == "r2":
+        return kind, R.r2_task(task[1])
+    raise RuntimeError(f"HARNESS: unknown task {task!r}")
+
+
+def merge_violations(by_sig, violations):
+    for v in violations:
+        cur = by_sig.get(v["signature"])
+        if cur is None:
+            by_sig[v["signature"]] = v
+        elif (v["size"], repr(v["replay"])) < (cur["size"], repr(cur["replay"])):
+            v["n"] += cur["n"]
+            by_sig[v["signature"]] = v
+        else:
+            cur["n"] += v["n"]
+
+
+class SingleCallFamilies:
+    """the hand-over of the single-call streaming path: handler-level search with the recorded protocol (mode
+    "handover"), single requests through LLMRails (R1), two overlapping requests through LLMRails (R2)"""
+
+    def __init__(self, rep, tier):
+        from vf.props import c18_handover as ho
+        from vf.props import c18_rails as R
+
+        self.rep, self.tier, self.R, self.ho = rep, tier, R, ho
+        R.app()
+        try:
+            ho.PROTO = R.record_protocol()
+        except R.ProtocolNotRecordable as e:
+            # no single atomic hand-over protocol to replay at handler level: the LLMRails-level families judge alone
+            ho.PROTO = None
+            self.cfg = cfg = R.DEFAULT_CONFIG
+            self.hts = []
+            self.not_recordable = str(e)[:2000]
+            rep.set("handover_protocol_not_recordable", self.not_recordable)
+        else:
+            self.not_recordable = None
+            self.cfg = cfg = R.config_of(ho.PROTO)
+            rep.set("handover_protocol_recorded_from_generation_py", {"before_first_token": ho.PROTO["pre"], "k": ho.PROTO["k"],
+                                                                      "at_handover": ho.PROTO["handover"], "config": cfg_name(cfg)})
+            self.hts = ho.tasks(tier)
+        r1 = [(ti, first, cfg) for ti in range(len(R.R1_TEXTS)) for first in [None] + list(range(1, len(R.R1_TEXTS[ti])))]
+        self.r2 = [(pat, tier, cfg, 120 if tier == "quick" else 600) for pat in R.r2_patterns(tier)]
+        # the big interleaving tasks first
+        head = [("r2", t) for t in sorted(self.r2, key=lambda t: -len(t[0]))]
+        tail = [("handover", t) for t in self.hts] + [("r1", t) for t in r1]
+        if rep.seed:
+            import random
+
+            random.Random(rep.seed).shuffle(tail)  # order of work only
+        self.tasks = head + tail
+        self.pending = len(self.tasks)
+        self.complete = True
+        self.r1_merged = {}
+        self.n_r1 = {"rails_single_request_runs": 0, "rails_single_request_streams_not_closed": 0,
+                     "rails_single_request_runs_with_stop_inside_buffered_part": 0}
+        self.agg2 = {"executions": 0, "states": 0, "transitions": 0, "validated": 0, "overlapping": 0, "outcomes": 0}
+        self.viol2 = {}
+
+    def consume(self, kind, res, by_sig):
+        rep = self.rep
+        self.pending -= 1
+        if kind == "handover":
+            rep.merge_counts(res["counts"])
+            rep.add("handler_calls", res["calls"])
+            rep.add("handover_tasks_done", 1)
+            for sm in res["samples"][:1]:
+                if len([x for x in rep.cov.get("samples", []) if str(x.get("mode", "")).startswith("handover")]) < 2:
+                    rep.cov.setdefault("samples", []).insert(0, sm)
+            merge_violations(by_sig, res["violations"])
+        elif kind == "r1":
+            ti, r = res
+            self.n_r1["rails_single_request_runs"] += r["runs"]
+            self.n_r1["rails_single_request_streams_not_closed"] += r["not_closed"]
+            self.n_r1["rails_single_request_runs_with_stop_inside_buffered_part"] += r["stop_inside_buffered_part"]
+            m = self.r1_merged.setdefault(ti, {})
+            for k, v in r["by_delivered"].items():
+                if k not in m or (len(v[0]), v[0]) < (len(m[k][0]), m[k][0]):
+                    m[k] = v
+        else:
+            for k in self.agg2:
+                self.agg2[k] += res[k]
+            self.complete = self.complete and res["complete"]
+            for sig, what, info in res["viol"]:
+                if sig not in self.viol2 or len(what) < len(self.viol2[sig][0]):
+                    self.viol2[sig] = (what, info)
+
+    def finalize(self):
+        """-> [(signature, what, replay)] of the LLMRails-level families, all interleavings explored?"""
+        rep, R, ho, tier, cfg = self.rep, self.R, self.ho, self.tier, self.cfg
+        for k, v in self.n_r1.items():
+            rep.set(k, v)
+        rep.set("rails_single_request_texts", len(R.R1_TEXTS))
+        rep.set("rails_single_request_distinct_outcomes", sum(len(m) for m in self.r1_merged.values()))
+        for k, v in self.agg2.items():
+            rep.set("rails_overlapping_requests_" + k, v)
+        rep.set("rails_overlapping_requests_chunking_patterns", len(self.r2))
+        rep.set("rails_overlapping_requests_complete", self.complete)
+        rep.set("handover_tasks_planned", len(self.hts))
+        # violations of the LLMRails-level families: the smallest case of every signature
+        found = {}
+
+        def keep(sig, what, rp):
+            cur = found.get(sig)
+            size = sum(len(c) for c in rp.get("chunkings", [[]])[0]), len(rp.get("chunkings", [[]])[0])
+            if cur is None or size < cur[0]:
+                found[sig] = (size, what, rp, (cur[3] if cur else 0) + 1)
+            else:
+                found[sig] = (cur[0], cur[1], cur[2], cur[3] + 1)
+
+        for ti in sorted(self.r1_merged):
+            R.r1_judge(ti, cfg, self.r1_merged[ti], keep)
+        rails_viol = []
+        for sig in sorted(found):
+            _sz, what, rp, n = found[sig]
+            rails_viol.append((sig, what + f"  [{n} distinct outcomes show this class]", rp))
+        for sig in sorted(self.viol2):
+            rails_viol.append((sig, self.viol2[sig][0], self.viol2[sig][1]))
+        rep.assumptions += [
+            "single-call streaming (generation.py): the operations on the inner handler are recorded from a real LLMRails request "
+            "(handover_protocol_recorded_from_generation_py) and replayed verbatim by the handler-level search (mode 'handover'); "
+            "the hand-over runs right after the token that completes line k+1 and no token arrives inside it (tokens arrive only "
+            "when the loop is idle - every token of the scripted LLM waits for an explorer-owned future); a token arriving "
+            "between generate_user_intent and generate_bot_message (needs another action that really suspends) is not modelled",
+            "hand-over texts: head (the two intent lines; 3 heads: plain, \\r\\n line ends, empty line + comment line) + body; the "
+            "statement's 'LLM output text' is the body = the text behind the first k non-empty non-comment lines; bodies = every "
+            "character-prefix of every sequence of <= n symbols (handover_bounds) free and behind the recorded prefix; texts whose "
+            "line k+1 never starts are not judged (nothing is handed over; handover_texts_before_the_handover)",
+            "LLMRails level: R1 = " + str(len(R.R1_TEXTS)) + " realistic LLM texts x every split into <= 3 tokens (+ per character / word / "
+            "line / pair); R2 = two requests on one LLMRails, every chunking pattern over the cut points {end of line 1, end of "
+            "line 2, behind the opening quote" + ("" if tier == "quick" else ", middle of the message, before the closing quote")
+            + "} x every interleaving of arrivals and token deliveries (virtual loop, quiescence granularity)",
+        ]
+        rep.set("handover_bounds", {m: {"symbols_behind_prefix": b[0], "symbols_free_body": b[1], "alphabet": ho.alphabet(m)}
+                                    for m, b in ho.bounds(tier).items()} if self.hts else "not run: " + str(self.not_recordable))
+        rep.set("handover_heads", list(ho.HEADS))
+        return rails_viol, self.complete and self.pending == 0 and self.not_recordable is None
+
+
 def run(rep, tier):
     from vf import par
 
     lib()
+    t_start = time.time()
+    by_sig = {}
+    sc = SingleCallFamilies(rep, tier)
     ts = tasks(tier)
     seed = rep.seed
     if seed:
@@ -1112,28 +1341,35 @@ def run(rep, tier):
         # big sub-tries first
         ts.sort(key=lambda t: -(len(alphabet(t[0])) ** max(0, t[4] - len(t[3] or ()))))
     budget = 56 if tier == "quick" else 17 * 60
-    deadline = time.time() + budget
+    deadline = t_start + budget
     done = 0
-    by_sig = {}
-    for res in par.pmap(explore, ts, chunksize=2, deadline=deadline):
-        done += 1
-        rep.merge_counts(res["counts"])
-        rep.add("handler_calls", res["calls"])
-        for s in res["samples"]:
-            rep.sample(s)
-        for v in res["violations"]:
-            cur = by_sig.get(v["signature"])
-            if cur is None:
-                by_sig[v["signature"]] = v
-            elif (v["size"], repr(v["replay"])) < (cur["size"], repr(cur["replay"])):
-                v["n"] += cur["n"]
-                by_sig[v["signature"]] = v
-            else:
-                cur["n"] += v["n"]
+    # one pool: the single-call families first (they always run to their end), then the sub-tries of the handler
+    # families until the time budget is used up
+    gen = par.pmap(new_family_task, sc.tasks + [("old", t) for t in ts], chunksize=2)
+    for kind, res in gen:
+        if kind != "old":
+            sc.consume(kind, res, by_sig)
+            if not sc.pending:
+                rep.set("single_call_families_done_after_s", round(time.time() - t_start, 1))
+        else:
+            done += 1
+            rep.merge_counts(res["counts"])
+            rep.add("handler_calls", res["calls"])
+            for s in res["samples"]:
+                rep.sample(s)
+            merge_violations(by_sig, res["violations"])
+        if not sc.pending and time.time() > deadline:
+            gen.close()     # leaves the pool context: the workers are terminated
+            break
+    rails_viol, new_complete = sc.finalize()
     new = 0
     for sig in sorted(by_sig, key=lambda s: (by_sig[s]["size"], s)):
         v = by_sig[sig]
         if rep.violation(sig, v["what"] + f"  [{v['n']} (text, end) groups show this class]", v["replay"]):
+            new += 1
+    for sig, what, rp in rails_viol:
+        by_sig[sig] = {"n": 1, "what": what}
+        if rep.violation(sig, what, rp):
             new += 1
     cfgs = configs()
     sl_cfgs = sl_configs(tier)
@@ -1167,7 +1403,7 @@ def run(rep, tier):
         },
     })
     rep.set("distinct_outcome_sets", rep.cov.get("groups_divergent", 0))
-    rep.set("exhaustive", done == len(ts))
+    rep.set("exhaustive", done == len(ts) and new_complete and rep.cov.get("handover_tasks_done", 0) == rep.cov.get("handover_tasks_planned"))
     if done < len(ts):
         rep.set("cap_hit", f"time budget {budget}s: {done}/{len(ts)} sub-tries (config x mode x first symbols) fully explored")
     rep.assumptions += [
@@ -1177,13 +1413,14 @@ def run(rep, tier):
         "chunkings: ALL splits of each text into non-empty chunks (merged DAG; chunkings_represented = sum of 2^(len-1)), "
         "plus an optional empty first token in the LangChain modes",
         "pattern / stop configured before the first chunk (set_pattern + .stop as in tests/test_streaming_handler.py); "
-        "the mid-stream reconfiguration done by generation.py (buffering, then set_pattern, then stop) is not modelled",
+        "the mid-stream reconfiguration done by generation.py (buffering, then set_pattern, then stop) is the subject of "
+        "the hand-over modes",
         "queued items are observed only the way __anext__ hands them out: concatenation up to the first None/'' sentinel; "
         "the handler never reads its own queue",
         "handler coroutines do not suspend (unbounded queue); create_task'ed pipe pushes run FIFO after the creating coroutine; "
         "bound to the implementation by from-scratch replays on a real asyncio loop with an `async for` consumer",
-        "enable_print / buffering (enable_buffer, wait_top_k_nonempty_lines) are off; whether the stream is terminated by a "
-        "sentinel is counted (groups_without_end_sentinel), not demanded",
+        "enable_print is off; buffering (enable_buffer, wait_top_k_nonempty_lines) is on only in the hand-over modes; whether "
+        "the stream is terminated by a sentinel is counted (groups_without_end_sentinel), not demanded",
         "a text that does not start with the configured prefix is read as 'nothing to remove': its reference is the text "
         "with the suffix removed and cut at the first stop sequence (the same no-op rule the statement needs for a text "
         "that does not end with the suffix); such groups are counted in prefix_absent_groups_judged_against_reference",
@@ -1197,6 +1434,30 @@ def run(rep, tier):
 # ------------------------------------------------------------------ replay of one recorded case
 def replay(rp):
     lib()
+    if rp.get("level") == "rails":
+        from vf.props import c18_rails as R
+
+        return R.replay(rp)
+    if str(rp.get("mode", "")).startswith("handover"):
+        from vf.props import c18_handover as ho
+        from vf.props import c18_rails as R
+
+        R.app()
+        ho.PROTO = R.record_protocol()
+        print(f"property C18 | {rp.get('signature')}")
+        print(f"hand-over protocol recorded from generation.py: {ho.PROTO}")
+        print(f"text={rp['text']!r}  body (the text behind the {ho.PROTO['k']} intent lines)={ho.body_of(rp['text'])!r}  end={rp.get('end')}")
+        print(f"expected: {rp.get('expect')}")
+        for chunks in rp["chunkings"]:
+            r = ho.run_real(None, rp["mode"], chunks, rp.get("end"))
+            print(f"  tokens {chunks!r}\n     the caller's handler delivers {r['delivered_chunks']!r} = {r['delivered']!r}\n"
+                  f"     completion of the inner handler {r['completion']!r}  of the caller's handler {r['outer_completion']!r}  "
+                  f"consumer finished={r['ended']}")
+            if "".join(chunks).startswith(ho.RAILS_HEAD):
+                obs, outcome, _tr = R.run_default({"r": list(chunks)})
+                o = obs["r"]
+                print(f"     through LLMRails.generate_async: {outcome}/{o[0]} delivered {o[1]!r} completion {o[2]!r} response {o[3]!r}")
+        return 0
     c = rp["config"]
     cfg = (c["prefix"], c["suffix"], tuple(c["stop"]))
     print(f"property C18 | {rp.get('signature')}")
